@@ -23,7 +23,7 @@ def scan_function(fn: ast.AST, member_name: str, ordering_scope: bool) -> List[T
             out.append(("floor-division", u(n)[:70], "weighted counts and bases are fractional: integer division truncates them"))
         if isinstance(n, ast.AugAssign) and isinstance(n.op, ast.FloorDiv):
             out.append(("floor-division", u(n)[:70], "weighted counts and bases are fractional: integer division truncates them"))
-        if isinstance(n, ast.Call) and isinstance(n.func, ast.Attribute) and n.func.attr == "astype" and n.args and u(n.args[0]) in _INT_TYPES and "median" not in member_name:
+        if isinstance(n, ast.Call) and isinstance(n.func, ast.Attribute) and n.func.attr == "astype" and n.args and u(n.args[0]) in _INT_TYPES and "median" not in member_name and not _only_repeat_counts(fn, n):
             out.append(("int-cast", u(n)[:70], "weighted counts / values are fractional: the cast truncates them (integer counts are specified for the median only)"))
         if isinstance(n, ast.Compare):
             for op, c in zip(n.ops, n.comparators):
@@ -47,6 +47,28 @@ def scan_function(fn: ast.AST, member_name: str, ordering_scope: bool) -> List[T
             if isinstance(n, ast.Call) and u(n.func) in ("list", "tuple", "np.array", "np.fromiter") and n.args and isinstance(n.args[0], ast.Call) and u(n.args[0].func) in ("set", "frozenset"):
                 out.append(("unordered", u(n)[:70], "a set turned into a sequence has arbitrary order"))
     return out
+
+
+def _only_repeat_counts(fn: ast.AST, cast: ast.Call) -> bool:
+    """The integer cast is the REPEAT COUNT of np.repeat(values, counts) - one value per (whole) respondent, the
+    construction of the median, which is specified for integer counts - and is used for nothing else."""
+    parents = {}
+    for p_ in ast.walk(fn):
+        for c in ast.iter_child_nodes(p_):
+            parents[id(c)] = p_
+
+    def is_repeat_arg(node):
+        par = parents.get(id(node))
+        return isinstance(par, ast.Call) and u(par.func) == "np.repeat" and len(par.args) >= 2 and par.args[1] is node
+
+    if is_repeat_arg(cast):
+        return True
+    par = parents.get(id(cast))
+    if isinstance(par, ast.Assign) and len(par.targets) == 1 and isinstance(par.targets[0], ast.Name):
+        name = par.targets[0].id
+        uses = [x for x in ast.walk(fn) if isinstance(x, ast.Name) and x.id == name and isinstance(x.ctx, ast.Load)]
+        return bool(uses) and all(is_repeat_arg(x) for x in uses)
+    return False
 
 
 def _is_extent(e: ast.AST) -> bool:
